@@ -231,6 +231,14 @@ def run(repo: Repo, chk: Check):
     from .c04 import rule_functions_below_modules, rule_module_chain
     chk.guarded(rule_functions_below_modules, repo, chk, "R13.f")
     chk.guarded(rule_module_chain, repo, chk, "R13.f")
+    chk.rule("R13.h", "a library's 'if __name__ == \"__main__\":' block contributes nothing: the pass that forwards single-assignment constants to their "
+                      "readers skips the nodes that were marked unused (otherwise an assignment inside that block replaces the library's own constant; "
+                      "shared with R01.c)", floor=1)
+    from .shared import rule_forwarding_skips_unused
+    chk.guarded(rule_forwarding_skips_unused, repo, chk, "R13.h")
+    chk.rule("R13.i", "the module-level code of the libraries runs in the order of the import statements: the passes that visit the modules go through "
+                      "data.modules as it was filled, not sorted, reversed or through a set", floor=2)
+    chk.guarded(r13i, repo, chk)
 
     # ------------------------------------------------------------ R13.e
     sm = cp.func("CompilerPassSetModuleNames.handle_import_from")
@@ -286,30 +294,45 @@ def run(repo: Repo, chk: Check):
     if not walk_vars:
         raise AnalysisError("get_scope_name: the walk up to the enclosing module (while ... not isinstance(<scope>, nodes.Module)) was not found")
 
-    def names_module(e, tainted):
-        for x in ast.walk(e):
-            if isinstance(x, ast.Attribute) and x.attr == "name" and isinstance(x.value, ast.Name) and x.value.id in walk_vars:
-                return True
-            if isinstance(x, ast.Name) and isinstance(x.ctx, ast.Load) and x.id in tainted:
+    # the module's name is <walk variable>.name AFTER the walk (inside the loop the variable is still an enclosing function)
+    walk_loops = [w for w in ast.walk(gs) if isinstance(w, ast.While) and any(isinstance(c, ast.Call) and norm(c.func) == "isinstance" and len(c.args) == 2
+                                                                              and isinstance(c.args[0], ast.Name) and c.args[0].id in walk_vars for c in ast.walk(w.test))]
+    in_walk = {id(x) for w in walk_loops for st_ in w.body for x in ast.walk(st_)}
+    gcfg, grd = fn_ctx(gs)
+
+    def is_source(x):
+        return isinstance(x, ast.Attribute) and x.attr == "name" and isinstance(x.value, ast.Name) and x.value.id in walk_vars and id(x) not in in_walk
+
+    def carries(e, at, depth=0):
+        """does the value of e contain the module's name on every way it can have been computed?"""
+        if depth > 8:
+            return False
+        if any(is_source(x) for x in ast.walk(e)) and not isinstance(e, ast.IfExp):
+            return True
+        if isinstance(e, ast.IfExp):
+            # [module] if module else []: without a name there is nothing to qualify with
+            b_, o_ = carries(e.body, at, depth + 1), carries(e.orelse, at, depth + 1)
+            return (b_ and o_) or (b_ and carries(e.test, at, depth + 1)) or (o_ and carries(e.test, at, depth + 1))
+        names = [x for x in ast.walk(e) if isinstance(x, ast.Name) and isinstance(x.ctx, ast.Load) and x.id not in walk_vars]
+        for nm in names:
+            ids_ = live_ids(gcfg, at)
+            ds = grd.at(ids_[0], nm.id) if ids_ else []
+            vals = [d for d in ds if d.kind in ("assign", "aug") and d.value is not None]
+            if not vals or len(vals) != len(ds):
+                continue
+            via_defs = all(carries(d.value.value if isinstance(d.value, ast.AugAssign) else d.value, gcfg.nodes[d.node].ast, depth + 1) or
+                           (isinstance(d.value, ast.AugAssign) and carries(ast.Name(id=nm.id, ctx=ast.Load()), gcfg.nodes[d.node].ast, depth + 1) and False) for d in vals)
+            # a list that receives the name by append / extend / insert outside the walk
+            fed = any(isinstance(c, ast.Call) and isinstance(c.func, ast.Attribute) and c.func.attr in ("append", "extend", "insert", "appendleft") and isinstance(c.func.value, ast.Name)
+                      and c.func.value.id == nm.id and id(c) not in in_walk and any(carries(a_, c, depth + 1) for a_ in c.args) for c in ast.walk(gs))
+            if via_defs or fed:
                 return True
         return False
-    tainted = set()
-    for _ in range(6):
-        before = len(tainted)
-        for st in ast.walk(gs):
-            if isinstance(st, ast.Assign) and names_module(st.value, tainted):
-                tainted |= {n.id for t in st.targets for n in ast.walk(t) if isinstance(n, ast.Name)} - walk_vars
-            if isinstance(st, ast.AugAssign) and names_module(st.value, tainted) and isinstance(st.target, ast.Name):
-                tainted.add(st.target.id)
-            if isinstance(st, ast.Call) and isinstance(st.func, ast.Attribute) and st.func.attr in ("append", "extend", "insert", "appendleft") and isinstance(st.func.value, ast.Name) \
-                    and any(names_module(a, tainted) for a in st.args):
-                tainted.add(st.func.value.id)
-        if len(tainted) == before:
-            break
     rets = [r for r in ast.walk(gs) if isinstance(r, ast.Return) and r.value is not None and not (isinstance(r.value, ast.Constant) and r.value.value == "")]
     if not rets:
         raise AnalysisError("get_scope_name: no return of a scope name found")
-    unq = [norm(r.value)[:60] for r in rets if not names_module(r.value, tainted)]
+    unq = [norm(r.value)[:60] for r in rets if not carries(r.value, r)]
+    tainted = set()
     chk.judge("R13.e", "utils:get_scope_name:scope names are qualified with the module name", not unq,
               f"get_scope_name returns {unq} without the name of the enclosing module in it: equal function or variable names of two modules get the same scope name",
               {"module name flows into": sorted(tainted)}, f"{u.path}:{gs.lineno}")
@@ -463,3 +486,42 @@ def _keys_of_tables(e, rd, nid, fn, cfg, depth=0):
                     ok = ok and _keys_of_tables(a, rd, at, fn, cfg, depth + 1)
         return ok
     return False
+
+
+# ---------------------------------------------------------------------- R13.i
+def r13i(repo, chk, R="R13.i"):
+    """run() of the code generation and gather passes: 'for module in self.data.modules.values(): self._visit_node(module)'."""
+    n = 0
+    for mn in ("generate_code", "compile_pass"):
+        m = repo.mod(mn)
+        for q, f in m.funcs.items():
+            if not q.endswith(".run") or not isinstance(f, ast.FunctionDef):
+                continue
+            for lp in ast.walk(f):
+                if not (isinstance(lp, ast.For) and "data.modules" in norm(lp.iter)):
+                    continue
+                visits = any(isinstance(c, ast.Call) and norm(c.func).endswith("_visit_node") or isinstance(c, ast.Call) and norm(c.func).endswith("_visit_node_recursive")
+                             for c in ast.walk(lp))
+                if not visits:
+                    continue
+                n += 1
+                it = lp.iter
+                how = None
+                x = it
+                while isinstance(x, ast.Call):
+                    f_ = norm(x.func)
+                    if f_ in ("sorted", "reversed", "set", "frozenset"):
+                        how = f_
+                    if f_ in ("sorted", "reversed", "set", "frozenset", "list", "tuple", "iter", "enumerate") and x.args:
+                        x = x.args[0]
+                    elif isinstance(x.func, ast.Attribute) and x.func.attr in ("values", "items", "keys"):
+                        x = x.func.value
+                    else:
+                        break
+                if any(isinstance(c, ast.Call) and norm(c.func) in ("sorted", "reversed", "set") for c in ast.walk(it)):
+                    how = how or "sorted"
+                chk.judge(R, f"{mn}:{q}:modules are visited in import order", how is None,
+                          f"the modules are visited in the order of {norm(it)[:50]}: a library imported second but coming first in that order has its module-level code "
+                          f"(the initialisation of its globals, device settings) run before the library it was imported after", None, f"{m.path}:{lp.lineno} in {q}")
+    if n < 2:
+        raise AnalysisError(f"R13.i: only {n} loops that visit the library modules found in the run() methods")
